@@ -325,6 +325,35 @@ def r3(repo, res):
         return
     res.ob("C06.R3", init, init, ok, expected="Coverage keeps every non-insertion observation list as given; parsed insertions are replaced by the indel table when it exists",
            found="ok" if ok else f"{getattr(me, '_coverage', None)} / {getattr(me, '_indels', None)}", key="coverage-init")
+    # the accessors every stage reads the evidence through (Coverage class lifted; indel table with and without support)
+    from sa.fold import ClassModel
+
+    Mu = collections.namedtuple("Mutation", ["pos", "op"])
+    cm = ClassModel(repo.cls("coverage::Coverage"))
+    obs = {10: {"_": [1] * 7, "A>C": [1] * 3, "insT": [1] * 2}, 11: {"_": [1] * 5, "delG": [1] * 4}, 12: {"insAA": [1] * 6}}
+    bad = None
+    try:
+        for label, indels in (("no indel table", None), ("indel table", {(10, "insT"): (5, 9), (11, "delG"): (2, 0)})):
+            me = cm.instance(_coverage=obs, _indels=indels)
+            want = {
+                ("coverage", Mu(10, "A>C")): 3, ("coverage", Mu(10, "_")): 7, ("coverage", Mu(13, "A>C")): 0, ("coverage", Mu(10, "G>T")): 0,
+                ("coverage", Mu(10, "insT")): 9 if indels else 2, ("coverage", Mu(11, "delG")): 0 if indels else 4, ("coverage", Mu(12, "insAA")): 6,
+                ("total", 10): 10.0, ("total", 11): 9.0, ("total", 12): 0.0, ("total", 13): 0, ("total", Mu(10, "A>C")): 10.0,
+                ("total", Mu(10, "insT")): 14 if indels else 10.0, ("total", Mu(11, "delG")): 2 if indels else 9.0,
+                ("percentage", Mu(10, "A>C")): 30.0, ("percentage", Mu(13, "A>C")): 0, ("__getitem__", Mu(10, "A>C")): 3,
+            }
+            for (meth, arg), w in want.items():
+                got = cm.call(meth, me, [arg], {})
+                if abs(got - w) > 1e-9:
+                    bad = bad or f"{label}: {meth}({arg}) = {got}, expected {w}"
+    except (Unfoldable, Raised) as e:
+        res.err("C06.R3", f"Coverage accessors outside folding language: {e}")
+        return
+    res.ob("C06.R3", init, init, bad is None,
+           expected="coverage(m) = number of observations of m (0 if none); a catalogued indel reads its realignment support instead; total(position) = all observations there "
+                    "except insertions; total(indel) = its realignment counts; percentage = 100 * coverage / total (0 without depth)",
+           found="accessor table agrees (2 x 17 cells)" if bad is None else bad,
+           clause="insertions do not count towards depth; the indel support table takes precedence for catalogued indels", key="accessors")
 
 
 def r4(repo, res):
